@@ -35,7 +35,7 @@ class Packet:
                 self.packet_type = BINARY_EVENT
             elif self.packet_type == ACK:
                 self.packet_type = BINARY_ACK
-            else:
+            elif self.packet_type not in (BINARY_EVENT, BINARY_ACK):
                 raise ValueError('Packet does not support binary payload.')
         self.attachment_count = 0
         self.attachments = []
